@@ -532,11 +532,28 @@ within what CBOR heads can carry (`wfb`: lengths, tags and integers below 2^64 -
 written as bignums by `int128`), the expression slots are well shaped and not larger than the reader's fuel. -/
 theorem C11_wire_roundtrip (t : Tx) (hwf : (tx t).wfb = true)
     (hok : TxOK t ((toBytes t).length + 1))
-    (ha : ∀ e ∈ t.adhoc, ∃ name keys cs, e = Expr.node (.adhoc name keys) cs) :
+    (ha : ∀ e ∈ t.adhoc, ∃ name keys cs, e = Expr.node (.adhoc name keys) cs)
+    (hn : nestTx t ≤ recursionLimit) :
     fromBytes (toBytes t) = some t := by
   unfold fromBytes toBytes
   rw [decode_encode_of_wfb _ hwf]
-  exact C11_tx_roundtrip t _ hok ha
+  have := C11_tx_roundtrip t _ hok ha
+  simp only [toBytes] at this
+  simp [this, hn]
+
+/-- **C11 (deep nesting is an error).** A transaction nested beyond the decoder's recursion budget is written
+but not read back: `from_bytes` answers with an error, whatever else holds. -/
+theorem C11_too_deep (t : Tx) (hwf : (tx t).wfb = true)
+    (hok : TxOK t ((toBytes t).length + 1))
+    (ha : ∀ e ∈ t.adhoc, ∃ name keys cs, e = Expr.node (.adhoc name keys) cs)
+    (hn : recursionLimit < nestTx t) :
+    fromBytes (toBytes t) = none := by
+  unfold fromBytes toBytes
+  rw [decode_encode_of_wfb _ hwf]
+  have := C11_tx_roundtrip t _ hok ha
+  simp only [toBytes] at this
+  have : ¬ nestTx t ≤ recursionLimit := by omega
+  simp [*]
 
 theorem TxOK_of_bytesHyps (t : Tx) (h : bytesHyps t = true) : (tx t).wfb = true ∧ TxOK t ((toBytes t).length + 1) := by
   unfold bytesHyps at h
@@ -544,17 +561,19 @@ theorem TxOK_of_bytesHyps (t : Tx) (h : bytesHyps t = true) : (tx t).wfb = true 
   exact ⟨h.1, fun e he => h.2 e he⟩
 
 theorem C11_wire_roundtrip' (t : Tx) (h : bytesHyps t = true)
-    (ha : ∀ e ∈ t.adhoc, ∃ name keys cs, e = Expr.node (.adhoc name keys) cs) :
+    (ha : ∀ e ∈ t.adhoc, ∃ name keys cs, e = Expr.node (.adhoc name keys) cs)
+    (hn : nestTx t ≤ recursionLimit) :
     fromBytes (toBytes t) = some t :=
-  C11_wire_roundtrip t (TxOK_of_bytesHyps t h).1 (TxOK_of_bytesHyps t h).2 ha
+  C11_wire_roundtrip t (TxOK_of_bytesHyps t h).1 (TxOK_of_bytesHyps t h).2 ha hn
 
 /-- Injectivity down to bytes: two transactions meeting the hypotheses and written to the same bytes are equal. -/
 theorem C11_bytes_injective (a b : Tx) (ha : bytesHyps a = true) (hb : bytesHyps b = true)
     (ha' : ∀ e ∈ a.adhoc, ∃ name keys cs, e = Expr.node (.adhoc name keys) cs)
     (hb' : ∀ e ∈ b.adhoc, ∃ name keys cs, e = Expr.node (.adhoc name keys) cs)
+    (hna : nestTx a ≤ recursionLimit) (hnb : nestTx b ≤ recursionLimit)
     (h : toBytes a = toBytes b) : a = b := by
-  have h1 := C11_wire_roundtrip' a ha ha'
-  have h2 := C11_wire_roundtrip' b hb hb'
+  have h1 := C11_wire_roundtrip' a ha ha' hna
+  have h2 := C11_wire_roundtrip' b hb hb' hnb
   rw [h] at h1
   exact Option.some.inj (h1.symm.trans h2)
 
